@@ -606,6 +606,15 @@ func (p *parser) class() *Node {
 	}
 	first := true
 	for {
+		if !first && p.looking("-[") {
+			// class subtraction: must be the last thing in the class
+			p.pos += 2
+			n.Sub = p.class()
+			if !p.more() || p.next() != ']' {
+				p.fail("class subtraction must end the class")
+			}
+			break
+		}
 		c := p.next()
 		if c == ']' && !first {
 			break
@@ -633,10 +642,7 @@ func (p *parser) class() *Node {
 		} else {
 			lo = c
 		}
-		if p.looking("-[") {
-			p.fail("class subtraction")
-		}
-		if p.pos+1 < len(p.s) && p.peek() == '-' && p.s[p.pos+1] != ']' {
+		if p.pos+1 < len(p.s) && p.peek() == '-' && p.s[p.pos+1] != ']' && p.s[p.pos+1] != '[' {
 			p.pos++
 			h := p.next()
 			var hi rune
